@@ -574,7 +574,6 @@ func (c *Ctx) c20Snapshot() {
 	r.Floor("R20.7", "snapshot payloads", n, 1)
 }
 
-
 // c20SyncRanges: R20.8.
 func (c *Ctx) c20SyncRanges() {
 	r := c.R
